@@ -942,14 +942,20 @@ def Route.port : Route → Nat
 theorem mkRedirRoute_covers {c : Config} {a : Addr} {doms : List Name} {d : Name} (h : d ∈ doms) :
     (mkRedirRoute c a doms).covers d = true := by
   unfold mkRedirRoute
-  split <;> simp [Route.covers, h]
+  split
+  · simp [Route.covers]
+  · have : d ∈ doms.foldl addSet [] := mem_foldl_addSet.mpr (Or.inr h)
+    simpa [Route.covers] using this
 
 theorem mkRedirRoute_lists {c : Config} {a : Addr} {doms : List Name} {d : Name}
     (h : (mkRedirRoute c a doms).lists d = true) : d ∈ doms := by
   unfold mkRedirRoute at h
   split at h
   · simp [Route.lists] at h
-  · simpa [Route.lists] using h
+  · have : d ∈ doms.foldl addSet [] := by simpa [Route.lists] using h
+    rcases mem_foldl_addSet.mp this with h' | h'
+    · simp at h'
+    · exact h'
 
 theorem mkRedirRoute_port {c : Config} {a : Addr} {doms : List Name} :
     (mkRedirRoute c a doms).port = portRule c a.sp := rfl
